@@ -15,4 +15,5 @@ def run(ctx):
         Part('filter_tables', 'corr_filters', 'run_tables', [s, 150 if q else 3000], specs={'complete_spec'}),
         Part('filter_candset', 'corr_matcher', 'run_candset', [s, 60 if q else 1000]),
         Part('formulas', 'corr_formulas', 'run_std', [s, 300 if q else 3000]),
+        Part('index_code', 'corr_index', 'run', [s, 150 if q else 3000]),
     ], RULE)
